@@ -322,7 +322,7 @@ class Verifier:
                 body = [st for st in func.node.body
                         if not (isinstance(st, ast.Expr) and isinstance(st.value, ast.Call) and
                                 isinstance(st.value.func, ast.Name) and
-                                st.value.func.id in ('requires', 'ensures', 'decreases', 'nofacts', 'forget'))]
+                                st.value.func.id in ('requires', 'ensures', 'decreases', 'nofacts', 'forget', 'opaque'))]
                 result = self.exec_lemma_body(I, body, fr)
             else:
                 result = I.exec_body(func.node.body, fr)
